@@ -345,6 +345,21 @@ theorem compS_labels_aux (cx : Ctx) : ∀ (s : Stmt),
       simp only [compS]
       have he := compE_labels cx st.scopes e .val st.nl
       exact ⟨he.1, labelsIn_one_more ((dropItems_labels _ st.nl st.nl).append he.2 (Nat.le_refl _) he.1) _⟩
+  | ret2 e1 e2 =>
+    refine ⟨?_, fun lp st hw _ => by simp [WfS] at hw⟩
+    intro lp st hw
+    simp only [compS]
+    have h2 := compE_labels cx st.scopes e2 .val st.nl
+    have h1 := compE_labels cx st.scopes e1 .val (compE cx st.scopes e2 .val st.nl).2
+    exact ⟨Nat.le_trans h2.1 h1.1, labelsIn_one_more
+      ((((dropItems_labels _ st.nl st.nl).append h2.2 (Nat.le_refl _) h2.1)).append h1.2 h2.1 h1.1) _⟩
+  | define2 x y e =>
+    refine ⟨?_, fun lp st hw _ => by simp [WfS] at hw⟩
+    intro lp st hw
+    simp only [compS, newLocal_nl]
+    have he := compE_labels cx st.scopes e .val st.nl
+    exact ⟨he.1, ((labelsIn_two_more he.2 _ _).append (storeVar_labels _ _ _ _ _) he.1 (Nat.le_refl _)).append
+      (storeVar_labels _ _ _ _ _) he.1 (Nat.le_refl _)⟩
   | brk =>
     refine ⟨?_, fun lp st hw _ => by simp [WfS] at hw⟩
     intro lp st hw
@@ -623,14 +638,14 @@ theorem allowed_wfS : ∀ (s : Stmt) (ls : Sigs), Allowed ls s → WfS false s
   | .labeled _ (.switchS _ _ cl), ls, h => by simp only [Allowed] at h; exact ⟨rfl, rfl, allowed_chain cl _ h.2⟩
   | .switchS _ _ cl, ls, h => by simp only [Allowed] at h; exact ⟨rfl, allowed_chain cl _ h.2⟩
   | .define _ _, _, _ | .assign _ _, _, _ | .opAssign _ _ _, _, _ | .inc _, _, _ | .dec _, _, _
-  | .varDecl _ _ _, _, _ | .exprStmt _, _, _ | .discard _, _, _ | .panicS _, _, _ | .ret _, _, _ | .brk, _, _ | .cont, _, _
+  | .varDecl _ _ _, _, _ | .exprStmt _, _, _ | .discard _, _, _ | .panicS _, _, _ | .ret _, _, _ | .ret2 _ _, _, _ | .define2 _ _ _, _, _ | .brk, _, _ | .cont, _, _
   | .brkL _, _, _ | .contL _, _, _ => rfl
   | .caseS _ _ _ _ _, _, h => by simp [Allowed] at h
   | .defaultS _, _, h => by simp [Allowed] at h
   | .labeled _ .skip, _, h | .labeled _ (.seq _ _), _, h | .labeled _ (.define _ _), _, h | .labeled _ (.assign _ _), _, h
   | .labeled _ (.opAssign _ _ _), _, h | .labeled _ (.inc _), _, h | .labeled _ (.dec _), _, h | .labeled _ (.varDecl _ _ _), _, h
   | .labeled _ (.exprStmt _), _, h | .labeled _ (.discard _), _, h | .labeled _ (.panicS _), _, h | .labeled _ (.ite _ _ _ _), _, h
-  | .labeled _ (.ret _), _, h | .labeled _ .brk, _, h | .labeled _ .cont, _, h | .labeled _ (.block _), _, h
+  | .labeled _ (.ret _), _, h | .labeled _ (.ret2 _ _), _, h | .labeled _ (.define2 _ _ _), _, h | .labeled _ .brk, _, h | .labeled _ .cont, _, h | .labeled _ (.block _), _, h
   | .labeled _ (.labeled _ _), _, h | .labeled _ (.brkL _), _, h | .labeled _ (.contL _), _, h
   | .labeled _ (.caseS _ _ _ _ _), _, h | .labeled _ (.defaultS _), _, h => by simp [Allowed] at h
 theorem allowed_chain : ∀ (cl : Stmt) (ls : Sigs), AllowedCl ls cl → WfS true cl
@@ -639,7 +654,7 @@ theorem allowed_chain : ∀ (cl : Stmt) (ls : Sigs), AllowedCl ls cl → WfS tru
   | .caseS _ _ b _ rest, ls, h => by simp only [AllowedCl] at h; exact ⟨rfl, allowed_wfS b ls h.1, allowed_chain rest ls h.2.1⟩
   | .seq _ _, _, h | .define _ _, _, h | .assign _ _, _, h | .opAssign _ _ _, _, h | .inc _, _, h | .dec _, _, h
   | .varDecl _ _ _, _, h | .exprStmt _, _, h | .discard _, _, h | .panicS _, _, h | .ite _ _ _ _, _, h
-  | .loop _ _ _ _, _, h | .ret _, _, h | .brk, _, h | .cont, _, h | .block _, _, h | .labeled _ _, _, h
+  | .loop _ _ _ _, _, h | .ret _, _, h | .ret2 _ _, _, h | .define2 _ _ _, _, h | .brk, _, h | .cont, _, h | .block _, _, h | .labeled _ _, _, h
   | .brkL _, _, h | .contL _, _, h | .switchS _ _ _, _, h => by simp [AllowedCl] at h
 end
 
@@ -764,9 +779,10 @@ theorem entry_halt {P : Prog} {C : Code} (hpc : ProgCode C P) (hall : ∀ d ∈ 
           rw [hex] at hrun
           cases out with
           | ret r =>
-            cases r with
-            | none => simp at hrun
-            | some v' =>
+            match r, hrun, hex with
+            | [], hrun, _ => simp at hrun
+            | _ :: _ :: _, hrun, _ => simp at hrun
+            | [v'], hrun, hex =>
               simp only at hrun
               split at hrun
               · cases hrun
